@@ -66,7 +66,7 @@ def fill_depressions(
         D8 flow directions
     """
     nrow, ncol = elevtn.shape
-    delv = np.zeros_like(elevtn)
+    delv = np.zeros(elevtn.shape, dtype=np.float64)  # fill height (float64: may exceed the range of a narrow elevation dtype)
     elevtn_out = elevtn.copy()
     done = np.isnan(elevtn) if np.isnan(nodata) else elevtn == nodata
     isnodata = done.copy()
